@@ -414,7 +414,13 @@ class BuiltinsMixin:
                 return self.new_container(VSet(r.key, r.dom))
         if isinstance(r, VMap):
             if name == "put" and self.spec_mode:
-                return r.put(args[0], args[1])
+                k_, v_ = args[0], args[1]
+                if isinstance(k_, VOpt) and not isinstance(r.key, VOpt):
+                    k_ = k_.val
+                like = vals.sel(r.val, vals.key_term(r, k_))
+                if isinstance(v_, VOpt) and not isinstance(like, VOpt):
+                    v_ = v_.val  # guarded by `... is not None` in the specification
+                return r.put(k_, v_)
             if name == "without" and self.spec_mode:
                 return r.remove(args[0])
             if name == "get":
